@@ -12,6 +12,33 @@ type Shape struct {
 	Kinds   []string // "begin" | "pattern" | "action" | "end", then "func" | "forin" ...
 	Waiting string   // "none" | "system" | "piperead" | "pipeclose"
 	Printed int      // lines printed before the cancellation point
+	// Dest is where they are printed: "" / "direct" / "buffered" = standard
+	// output (print), "file" = print > OUTF, "cmd" = print | CMD (OUTF and CMD
+	// are variables given through Config.Vars).
+	Dest string
+	// Outcome (finite programs that wait for a child): how the child ends --
+	// "" = by itself, what system() / close() return is not looked at;
+	// "zero", "status" (exit 3), "signal" (kill -9), "fail" (the wait itself
+	// fails: a background descendant keeps the inherited output open past
+	// os/exec's WaitDelay).  The value returned is printed.
+	Outcome string
+}
+
+// holdOpen is how long the background descendant of an Outcome "fail" command
+// keeps the inherited output open, in seconds.  execShell's WaitDelay is
+// 250 ms: the margin is a factor of 20 (nothing here depends on tight timing;
+// if the wait does not fail after all, the case is skipped, not judged).
+const holdOpen = 5
+
+// redir is the redirection of the program's print statements.
+func (s Shape) redir() string {
+	switch s.Dest {
+	case "file":
+		return " > OUTF"
+	case "cmd":
+		return " | CMD"
+	}
+	return ""
 }
 
 // Canon maps a model shape to one AWK can express and the harness can run
@@ -33,7 +60,7 @@ func (s Shape) Canon(finite bool) Shape {
 	if k[0] == "pattern" && len(k) > 1 && k[1] == "forin" {
 		k = append([]string{"pattern", "func"}, k[1:]...)
 	}
-	return Shape{k, s.Waiting, s.Printed}
+	return Shape{k, s.Waiting, s.Printed, s.Dest, s.Outcome}
 }
 
 func (s Shape) Innermost() string { return s.Kinds[len(s.Kinds)-1] }
@@ -56,7 +83,9 @@ var Records = strings.Repeat("r\n", numRecords)
 // records, inner functions and for-in bodies are short and entered again and
 // again.  With Waiting != "none" the innermost context, at its first
 // execution, prints, calls vmark() and blocks in a child ("sleep 300"); every
-// later execution calls vtick().
+// later execution calls vtick().  When the lines go to a command, vwait() is
+// called after the first one: it returns when the command is up (the context
+// kills the shell it starts; the reader must have been forked by then).
 //
 // No-cancel family (finite == true): the same nesting with bounded loops and
 // children that end by themselves; it runs to completion and prints what it
@@ -83,17 +112,20 @@ func (s Shape) Source(finite bool) string {
 	// innermost work
 	var w string
 	switch {
+	case s.Waiting == "none" && !finite && s.Dest == "cmd":
+		w = fmt.Sprintf(`n++; if (n <= %d) { print "L" n%s; if (n == 1) vwait() } if (n == K) vcancel()`, s.Printed, s.redir())
 	case s.Waiting == "none" && !finite:
-		w = fmt.Sprintf(`n++; if (n <= %d) print "L" n; if (n == K) vcancel()`, s.Printed)
+		w = fmt.Sprintf(`n++; if (n <= %d) print "L" n%s; if (n == K) vcancel()`, s.Printed, s.redir())
 	case s.Waiting == "none" && finite:
-		w = fmt.Sprintf(`n++; if (n <= %d) print "L" n; s += n %% 7`, s.Printed)
+		w = fmt.Sprintf(`n++; if (n <= %d) print "L" n%s; s += n %% 7`, s.Printed, s.redir())
 	default:
 		var wait string
 		cmd := childCmd
 		switch s.Waiting {
 		case "system":
 			if finite {
-				cmd = "exit 3"
+				cmd = map[string]string{"": "exit 3", "zero": "exit 0", "status": "exit 3", "signal": "kill -9 $$",
+					"fail": fmt.Sprintf("sleep %d &", holdOpen)}[s.Outcome]
 			}
 			wait = fmt.Sprintf(`rc = system("%s")`, cmd)
 		case "piperead":
@@ -103,7 +135,8 @@ func (s Shape) Source(finite bool) string {
 			wait = fmt.Sprintf(`rc = ("%s" | getline x)`, cmd)
 		case "pipeclose":
 			if finite {
-				cmd = "cat >/dev/null"
+				cmd = map[string]string{"": "cat >/dev/null", "zero": "cat >/dev/null", "status": "cat >/dev/null; exit 3",
+					"signal": "cat >/dev/null; kill -9 $$", "fail": fmt.Sprintf("cat >/dev/null; sleep %d &", holdOpen)}[s.Outcome]
 			}
 			wait = fmt.Sprintf(`print "x" | "%s"; rc = close("%s")`, cmd, cmd)
 		case "pipewrite":
@@ -113,14 +146,21 @@ func (s Shape) Source(finite bool) string {
 			}
 			wait = fmt.Sprintf(`print "%s" | "%s"`, strings.Repeat("0123456789", 10), cmd)
 		}
-		pr := fmt.Sprintf(`for (q = 1; q <= %d; q++) print "L" q; `, s.Printed)
-		// exit codes of children are not printed: they depend on the environment (a fork that fails
-		// under load, exec's WaitDelay), not on the context
+		pr := fmt.Sprintf(`for (q = 1; q <= %d; q++) print "L" q%s; `, s.Printed, s.redir())
+		if s.Dest == "cmd" && !finite && s.Printed > 0 {
+			pr += "vwait(); "
+		}
+		// what system() / close() return is printed only when the scenario says how the child ends (Outcome):
+		// otherwise it depends on the environment (a fork that fails under load), not on the context
+		rcOut := ""
+		if s.Outcome != "" {
+			rcOut = `; print "rc", rc`
+		}
 		switch {
 		case finite && s.Waiting == "pipewrite":
 			w = fmt.Sprintf(`if (n++ == 0) { %s} %s; s += n %% 7`, pr, wait)
 		case finite:
-			w = fmt.Sprintf(`if (n++ == 0) { %s%s; print "x", x } else s += n %% 7`, pr, wait)
+			w = fmt.Sprintf(`if (n++ == 0) { %s%s; print "x", x%s } else s += n %% 7`, pr, wait, rcOut)
 		case s.Waiting == "pipewrite":
 			w = fmt.Sprintf(`if (n++ == 0) { %svmark() } vtick(); %s`, pr, wait)
 		default:
@@ -169,7 +209,11 @@ func (s Shape) Source(finite bool) string {
 	case "pattern":
 		if len(s.Kinds) == 1 {
 			// a pattern-only rule: the work must be an expression; lines are printed in BEGIN
-			fmt.Fprintf(&sb, `for (q = 1; q <= %d; q++) print "L" q }`+"\n", s.Printed)
+			fmt.Fprintf(&sb, `for (q = 1; q <= %d; q++) print "L" q%s; `, s.Printed, s.redir())
+			if s.Dest == "cmd" && !finite && s.Printed > 0 {
+				sb.WriteString("vwait() ")
+			}
+			sb.WriteString("}\n")
 			if finite {
 				sb.WriteString("(++n % 7 == 9) || (s += n % 7) < 0\n")
 			} else {
